@@ -96,7 +96,7 @@ func waitDone(c chan struct{}) bool {
 	select {
 	case <-c:
 		return true
-	case <-time.After(20 * time.Second):
+	case <-time.After(3 * time.Minute):
 		return false
 	}
 }
@@ -143,7 +143,8 @@ func canConnect(port string) bool {
 // waitHTTP waits until the listener's start attempt has completed: it accepts
 // connections, or it reported failure (completion, not duration, is observed).
 func (w *world) waitHTTP(name, port string) {
-	for i := 0; i < 25000; i++ {
+	deadline := time.Now().Add(3 * time.Minute) // completion, not duration: generous on a loaded machine
+	for i := 0; time.Now().Before(deadline); i++ {
 		h := w.httpListener(name)
 		if h == nil {
 			return
@@ -166,7 +167,7 @@ func httpInfo(name, port, ua string) map[string]any {
 func (w *world) svcSend(s *svcConn, v any) {
 	b, _ := json.Marshal(v)
 	s.ws.SendText(string(b))
-	s.ws.Raw.WaitIdle(20 * time.Second)
+	s.ws.Raw.WaitIdle(3 * time.Minute)
 }
 
 func (w *world) apply(o op) {
@@ -199,7 +200,7 @@ func (w *world) apply(o op) {
 			if h := w.httpListener(o.name); h != nil {
 				w.ports[o.name] = port
 				// the bind must fail: wait for the failure report
-				for i := 0; i < 50000 && h.Active; i++ {
+				for deadline := time.Now().Add(3 * time.Minute); h.Active && time.Now().Before(deadline); {
 					time.Sleep(200 * time.Microsecond)
 				}
 			}
@@ -382,7 +383,12 @@ func (w *world) invariants(last op) (string, string) {
 			continue
 		}
 		if h.Active {
-			if !canConnect(port) {
+			ok := canConnect(port)
+			for deadline := time.Now().Add(2 * time.Minute); !ok && h.Active && time.Now().Before(deadline); {
+				time.Sleep(20 * time.Millisecond) // the accept loop may not have been scheduled yet
+				ok = canConnect(port)
+			}
+			if !ok && h.Active {
 				return "http-live-not-accepting", fmt.Sprintf("HTTP listener %s is reported online but port %s refuses connections", name, port)
 			}
 		}
